@@ -57,6 +57,7 @@ def run(ctx):
     ok_driver = modelio.build_driver(ctx)
     n = 40 if ctx.thorough else 10
     reqs, expect, labels = [], [], []
+    row_reqs, row_real = [], []
     for ci in range(n):
         shape = rng.choice(["bottom", "top", "middle", "flat", "two-equal"])
         n_rings_core = rng.choice([1, 1, 2])
@@ -219,6 +220,9 @@ def run(ctx):
                 for idx, cols in parse_table_rows(pt.table):
                     prow.setdefault(idx, cols)
                 ctx.count("pin_tables_checked")
+                # correspondence with Model.Peaks.pinRowLabels (c15_pin_rows_labels): the labels of the rows, in table order
+                row_reqs.append("pinrows " + " ".join("1" if 'pin' in a._peak else "0" for a in r.assemblies))
+                row_real.append(" ".join(str(idx) for idx, _ in parse_table_rows(pt.table)))
                 for i, a in enumerate(r.assemblies):
                     has = 'pin' in a._peak
                     if has != ((i + 1) in prow):
@@ -263,6 +267,15 @@ def run(ctx):
         ctx.obligation("trace validation: Model.Peaks.run reproduces Assembly._peak on %d recorded histories (bit-exact)" % len(reqs),
                        bad == 0, kind="correspondence", detail="disagreements: %d" % bad)
         ctx.traces = len(reqs)
+    if ok_driver and row_reqs:
+        bad = 0
+        for rep, real in zip(modelio.ask(row_reqs), row_real):
+            if rep.split()[1:] != real.split():
+                bad += 1
+                if bad == 1:
+                    ctx.problem("correspondence", "Model.Peaks.pinRowLabels vs PeakPinTempTable", "model %r, table rows %r" % (rep, real))
+        ctx.obligation("correspondence: Model.Peaks.pinRowLabels = row labels of %d real peak pin tables" % len(row_reqs), bad == 0,
+                       kind="correspondence", detail="disagreements %d" % bad)
     ctx.nontrivial = len(reqs)
     ctx.trusted += ["hand model lean/Dassh/Model/Peaks.lean tied to Assembly._update_peak_* by trace validation"]
     ctx.assumptions += ["temperatures are in kelvin, so some plane value exceeds the initial 0.0 (hypothesis of c15_peak_is_max)",
